@@ -136,6 +136,9 @@ class Eval(object):
                         raise Unsupported('dropping an element of the prefix')
                     out.has_last = False
                     return out
+        if isinstance(e, (ast.UnaryOp, ast.BoolOp, ast.Compare)) or \
+                (isinstance(e, ast.Call) and isinstance(e.func, ast.Attribute) and e.func.attr == 'endswith'):
+            return self.cond(e)      # a boolean kept in a local
         raise Unsupported('expression %s' % norm(e)[:60])
 
     def form(self, elt, var, cur):
@@ -152,6 +155,20 @@ class Eval(object):
             plus_nl = True
         if plus_nl:
             return 'P+NL' if cur == 'P' else 'LOSSY'
+        # elt[:-len(NL)]: removes exactly one newline from a terminated element
+        if isinstance(elt, ast.Subscript) and isinstance(elt.value, ast.Name) and elt.value.id == var and isinstance(elt.slice, ast.Slice) \
+                and elt.slice.lower is None and isinstance(elt.slice.upper, ast.UnaryOp) and isinstance(elt.slice.upper.op, ast.USub) \
+                and self.val(elt.slice.upper.operand) == 'len(NL)':
+            return 'P' if cur == 'P+NL' else 'LOSSY'
+        # strip-like calls remove any run of the newline's *bytes* (or whitespace), not one newline sequence
+        if isinstance(elt, ast.Call) and isinstance(elt.func, ast.Attribute) and isinstance(elt.func.value, ast.Name) \
+                and elt.func.value.id == var and elt.func.attr in ('rstrip', 'strip', 'lstrip', 'replace', 'removesuffix'):
+            if elt.func.attr == 'removesuffix' and len(elt.args) == 1 and self.val(elt.args[0]) == 'NL' and cur == 'P+NL':
+                return 'P'
+            if elt.func.attr == 'rstrip' and len(elt.args) == 1 and self.val(elt.args[0]) == 'NL' and self.nl_is_lf and cur in ('P', 'P+NL'):
+                return 'P'       # a one-byte newline: pieces do not contain it, so exactly the terminator goes
+            self.notes.append('%s() removes every trailing byte that occurs in the newline, not one newline' % elt.func.attr)
+            return 'LOSSY'
         raise Unsupported('comprehension element %s' % norm(elt))
 
     # -- statements ---------------------------------------------------------------------
@@ -221,6 +238,16 @@ def run(P, rep, tier):
     rep.trusted_base += ['bytes.split algebra (stated in sa/props/c16.py)', 'newlines used by the library have no proper border (LF, CRLF in any codec)']
     f = P.func('pydiffx.utils.text', 'split_lines')
     rep.analysed(f)
+    r0 = rep.rule('C16-R0', 'every call computes a fresh result: the function is not wrapped by a cache', reference=1)
+    decos = [norm(d) for d in f.node.decorator_list]
+    caching = [d for d in decos if any(w in d for w in ('lru_cache', 'cache', 'memo'))]
+    if caching:
+        rep.violation(r0, 'cached-result', f.loc(), 'split_lines is wrapped by %s: calls with equal arguments return the same mutable list, so '
+                      'a caller that edits the lines of one result changes what later calls return' % ', '.join(caching), path=[f.short])
+    elif decos:
+        raise Unsupported('split_lines is decorated with %s (effect on the result unknown)' % ', '.join(decos))
+    else:
+        rep.ok(r0, 'no decorator')
     r1 = rep.rule('C16-R1', 'kept-ends lines concatenate to the data; each but the last ends with the newline exactly once', reference=4)
     r2 = rep.rule('C16-R2', 'number of lines = number of newlines (+1 if the data does not end with one)', reference=8)
     r3 = rep.rule('C16-R3', 'without ends = kept-ends result with one trailing newline removed from each terminated line', reference=4)
